@@ -2,6 +2,7 @@
 (DESIGN.md 5.2 / 5.3).  The observation has exactly the shape Props.tla expects.
 """
 import copy
+import functools
 import pickle
 
 from sismic.interpreter import Interpreter
@@ -9,7 +10,7 @@ from sismic.model import Event, InternalEvent, MetaEvent
 from sismic import exceptions as sx
 
 import realize
-from probes import Probes, Listener, ev_id
+from probes import Probes, Listener, Mon, META_NAMES, ev_id
 
 FATAL = ('PreconditionError', 'PostconditionError', 'InvariantError', 'PropertyStatechartError')
 
@@ -18,7 +19,7 @@ class Run:
     """A real interpreter for an abstract chart plus the projection of its state."""
 
     def __init__(self, c, variant='api', pool='plain', seed=0, ignore_contract=False, metas=True,
-                 sc=None, names=None):
+                 monitor=False, sc=None, names=None):
         self.c = c
         if sc is None:
             sc, names = realize.build(c, variant, pool, seed)
@@ -34,6 +35,18 @@ class Run:
             self.listener.interp = self.interp
             self.listener.names = self.ids
             self.interp.attach(self.listener)
+        self.mon = None
+        self.listener2 = None
+        if monitor:
+            self.mon = Mon()
+            self.interp.bind_property_statechart(
+                monitor_chart(), interpreter_klass=functools.partial(Interpreter, initial_context={'mon': self.mon}))
+        if metas:
+            self.listener2 = Listener(self.probes)
+            self.listener2.share = False
+            self.listener2.interp = self.interp
+            self.listener2.names = self.ids
+            self.interp.attach(self.listener2)
         self.opt = {'ignore': bool(ignore_contract), 'metas': bool(metas)}
 
     # ---- projection
@@ -85,8 +98,14 @@ class Run:
         o = {'op': op, 'ev': h.get('ev', 0), 'par': h.get('par', 0), 'dl': h.get('dl', 0),
              'gv': gv, 'cfail': h.get('cfail', 0), 'mfail': h.get('mfail', 0),
              'clk': it.clock.time, 'pre': self.state(), 'some': False, 'rtime': 0, 'steps': [],
-             'exc': '', 'eobj': 0, 'eidx': 0, 'log': [], 'chk': 1}
+             'exc': '', 'eobj': 0, 'eidx': 0, 'log': [], 'chk': 1,
+             'ign': self.opt['ignore'], 'hasl2': self.listener2 is not None, 'l2': [], 'mt': [],
+             'ref': dict(NOREF)}
         self.probes.arm(gv, o['cfail'])
+        if self.mon is not None:
+            self.mon.arm(o['mfail'])
+        if self.listener2 is not None:
+            self.listener2.seen = []
         try:
             if op == 'queue':
                 kw = {}
@@ -121,15 +140,55 @@ class Run:
         if not o['some']:
             o['rtime'] = o['post']['time']
         o['log'] = list(self.probes.log)
+        if self.listener2 is not None:
+            o['l2'] = list(self.listener2.seen)
+        if self.mon is not None:
+            o['mt'] = list(self.mon.times)
         return o
 
 
-def run_history(c, hist, **kw):
-    """Replay `hist` on a fresh interpreter.  Stops after a fatal (contract/property) error."""
+NOREF = {'rel': '', 'exc': '', 'some': False, 'steps': [], 'log': [], 'conf': [], 'final': False, 'x': 0}
+
+
+def ref_of(rel, o):
+    return {'rel': rel, 'exc': o['exc'], 'some': o['some'], 'steps': o['steps'], 'log': o['log'],
+            'conf': o['post']['conf'], 'final': o['post']['final'], 'x': o['post']['x']}
+
+
+def monitor_chart():
+    from sismic.model import Statechart, CompoundState, BasicState, FinalState, Transition
+    sc = Statechart('monitor')
+    sc.add_state(CompoundState('r', initial='w'), None)
+    sc.add_state(BasicState('w'), 'r')
+    sc.add_state(FinalState('f'), 'r')
+    for name in META_NAMES + ['m1', 'm2', 'm3']:
+        sc.add_transition(Transition('w', None, event=name, action='mon.rec(event, time)'))
+    sc.add_transition(Transition('w', 'f', guard='mon.fire()'))
+    return sc
+
+
+def run_history(c, hist, twin=None, **kw):
+    """Replay `hist` on a fresh interpreter.  Stops after a fatal (contract/property) error.
+    twin = dict(rel=..., kw=...) runs a second interpreter in lock step and attaches what it observed
+    to every line (o['ref']); calls with an injected failure get a failure-free twin automatically."""
     r = Run(c, **kw)
+    b, rel = None, ''
+    if twin:
+        kb = dict(kw)
+        kb.update(twin.get('kw', {}))
+        b, rel = Run(c, **kb), twin['rel']
+    elif any(h.get('cfail') or h.get('mfail') for h in hist):
+        b, rel = Run(c, **kw), 'nofail'
     lines = []
     for h in hist:
         o = r.call(h)
+        if b is not None:
+            if rel == 'nofail':
+                ob = b.call(dict(h, cfail=0, mfail=0))
+                if h.get('cfail') or h.get('mfail'):
+                    o['ref'] = ref_of(rel, ob)
+            else:
+                o['ref'] = ref_of(rel, b.call(h))
         lines.append(o)
         if o['exc'] in FATAL or (o['exc'] and o['exc'] not in ('NonDeterminismError',
                                                                'ConflictingTransitionsError')):
